@@ -15,7 +15,7 @@ impl Monitor for C09 {
         "C09"
     }
     fn gens(&self, tier: Tier) -> Vec<Gen> {
-        vec![gen("states", tier.pick(3_000, 150_000, 3)), gen("joins", tier.pick(1_500, 60_000, 2))]
+        vec![gen("states", tier.pick(3_000, 150_000, 3)), gen("joins", tier.pick(1_500, 60_000, 2)), gen("single-channel", 9 * 3 * 16 * tier.pick(1, 10, 0))]
     }
     fn rule(&self) -> String {
         "states: a channel-plan state is reached by a history over {LinkADRReq (DR x power x ChMaskCntl x mask patterns, blocks), NewChannelReq create/delete, DlChannelReq, CFList via OTAA, set_datarate, bursts of silent uplinks for ADR back-off, join bias}; the history is re-run from scratch for 16 scripted RNG start values and in the reached state one uplink is made for every scripted RNG start value 0..127, so every possible channel choice is observed. joins: join attempts (incl. biases, re-joins after CFList/LinkADR) for every RNG start value. Every TxConfig handed to the radio is judged against the snapshot taken immediately before the call and the regional tables. Class = (region, plan-state hash, frame kind, chosen channel).".into()
@@ -205,7 +205,25 @@ fn case<const PW: u8, const G: i8>(g: &str, reg: Reg, front: Front, rng: &mut Pr
         join_case::<PW, G>(reg, front, rng, col);
         return;
     }
-    let hist = gen_history(reg, rng);
+    let hist = if g == "single-channel" {
+        // exactly one channel enabled, at every index of the plan in turn
+        let ch = rng.below(16) as u8;
+        let (lo, hi) = reg.inner_band();
+        let f = (lo + rng.below(((hi - lo) / 100) as u64) as u32 * 100) / 100;
+        let mut c = vec![];
+        if reg.fixed() {
+            c.extend(link_adr_req(15, 15, 0, 7, 1));
+            c.extend(link_adr_req(0, 15, 0b11 << (ch % 15), rng.below(4) as u8, 1));
+        } else {
+            if (ch as usize) >= reg.default_channels().len() {
+                c.extend(new_channel_req(ch, f, 0x50));
+            }
+            c.extend(link_adr_req(15, 15, 1 << ch, 0, 1));
+        }
+        vec![Step::Mac(c, false), Step::Send]
+    } else {
+        gen_history(reg, rng)
+    };
     let hist_s = format!("{:?}", hist).chars().take(600).collect::<String>();
     let seed = rng.next_u64();
     let otaa_cflist = rng.chance(1, 4);
